@@ -1526,6 +1526,19 @@ func funcSetpath(v, p, n any) any {
 	return setpath(v, p, n, nil)
 }
 
+// Used in compiler#compileQueryUpdate. The indices are constants of the query,
+// so report the same error as the path expression does on the value.
+func funcSetpathWithIndices(v any, args []any) any {
+	w := v
+	for _, x := range args[0].([]any) {
+		w = funcIndex2(nil, w, x)
+		if err, ok := w.(error); ok {
+			return err
+		}
+	}
+	return funcSetpath(v, args[0], args[1])
+}
+
 // Used in compiler#compileAssign and compiler#compileModify.
 func funcSetpathWithAllocator(v any, args []any) any {
 	return setpath(v, args[0], args[1], args[2].(allocator))
